@@ -1,6 +1,7 @@
 /- The fact values the C08 theorems are proved for (and the oracle runs the model with). -/
 import EinoV.Model.C08Net
 import EinoV.Model.C08Late
+import EinoV.Model.C08Wide
 namespace EinoV.Expected.C08
 open EinoV.C08
 
@@ -16,5 +17,7 @@ def facts : Facts := { copy := copyFacts, tbl := receiveN, maxSel := maxSelectNu
 def mergeTakes : List (Nat × Nat) := [(0, 0), (1, 1), (2, 2), (3, 3), (4, 4)]
 /-- a copy is merged through its own receive path, an array reader from its index -/
 def lateFacts : LateFacts := { childViaRecv := true, arrayFromIndex := true }
+/-- the select case switched off when a source ends is the one at the source's index -/
+def wideFacts : WideFacts := { disableByIndex := true }
 
 end EinoV.Expected.C08
